@@ -102,6 +102,13 @@ def second_diff(f, x, i, j, h):
 class C14(Prop):
   id = 'C14'
   lean_module = 'DK.Props.C14'
+  uses_t1 = True      # T1v regenerates DK/Gen/Vec.lean from the current source before the bridge is audited
+  bridge_vec = ['DK.BridgeVec.Device_hess', 'DK.BridgeVec.CDevice_hess', 'DK.BridgeVec.IDevice2_hess', 'DK.BridgeVec.IDevice_hess',
+                'DK.BridgeVec.HLQuadraticCost_hess', 'DK.BridgeVec.ABCCost_hess', 'DK.BridgeVec.ABCCost_fn',
+                'DK.BridgeVec.NullFunction_hess', 'DK.BridgeVec.ReflectedFunction_hess', 'DK.BridgeVec.InnerSumFunction_hess',
+                'DK.BridgeVec.GDevice_hess',
+                'DK.BridgeVec.CDevice2_hess']      # T1v: vector method bodies (vk/translate_vec.py, DK/Lemmas/BridgeVec.lean)
+  bridge = bridge_vec
   theorems = {'DK.Props.C14': ['DK.C14.device_hess', 'DK.C14.cdevice_hess', 'DK.C14.idevice2_hess', 'DK.C14.idevice2_hess_symm', 'DK.C14.idevice2_hess_psd',
               'DK.C14.idevice_hess', 'DK.C14.idevice_hess_int', 'DK.C14.idevice_hess_symm', 'DK.C14.idevice_hess_psd',
               'DK.C14.gdevice_hess', 'DK.C14.gdevice_hess_symm', 'DK.C14.cdevice2_hess', 'DK.C14.cdevice2_hess_symm', 'DK.C14.cdevice2_hess_psd',
